@@ -352,6 +352,12 @@ func Run(g *Grammar, in []byte, script map[int]*rtapi.Block, o Options) (res *Re
 			if off == 0 && o.Quirks[QMaxFailOrigin] {
 				er.PosOverride = &[3]int{1, 1, 0}
 			}
+			if len(ip.fails) == 0 {
+				// no terminal failed at all (e.g. only code predicates or an empty
+				// class of alternatives): the property defines no position; pigeon
+				// reports the start of the input as 1:1 (0)
+				er.PosOverride = &[3]int{1, 1, 0}
+			}
 			ip.errs = append(ip.errs, er)
 		}
 	}
